@@ -1394,7 +1394,9 @@ class Sum(Linop):
         device = backend.get_device(input)
         xp = device.xp
         with device:
-            return xp.sum(input, axis=self.axes)
+            return xp.sum(input, axis=self.axes, keepdims=True).reshape(
+                self.oshape
+            )
 
     def _adjoint_linop(self):
         return Tile(self.ishape, self.axes)
